@@ -2,6 +2,7 @@
 // url.JoinPath / url.Values.Encode applied to the rest model's symbolic requests (C06).
 //
 //	rtconf conf      one JSON case per line {"id":…, "opts":[[kind, value]…]}: NewRest → RestConf getters, BuildMiddleware trace
+//	rtconf confhist  one JSON case per line {"id":…, "ops":[["with",opt] | ["set",opt] | ["build"] | ["copy"]]…}: several steps on ONE RestConf value
 //	rtconf registry  one JSON case per line {"id":…, "ops":[["reg",T,K] | ["new",T,opts]]…}: each history runs in a fresh child
 //	                 process (the registry is a package-level map that is never emptied)
 //	rtconf regchild  (internal) one history on stdin
@@ -38,6 +39,8 @@ func main() {
 	switch os.Args[1] {
 	case "conf":
 		runConf(lines, out)
+	case "confhist":
+		runConfHist(lines, out)
 	case "registry":
 		runRegistry(lines, out)
 	case "regchild":
